@@ -1,6 +1,7 @@
 package chainh
 
 import (
+	"errors"
 	"os"
 	"encoding/json"
 	"fmt"
@@ -106,6 +107,9 @@ func SafeAdd(ch service.Chains, src domains.BlockHeaderSource) (h *domains.Block
 	return
 }
 
+// errWedged: the service no longer answers (an Add hangs); the process cannot go on, what was found so far is reported
+var errWedged = errors.New("the service is wedged")
+
 // Run replays one behaviour; idx identifies it in the mismatch records.
 func (r *Replayer) Run(idx int, b *Behaviour) error {
 	r.cur = idx
@@ -129,12 +133,25 @@ func (r *Replayer) Run(idx int, b *Behaviour) error {
 		if rig == nil {
 			return
 		}
+		// 1. while one channel still blocks: every OTHER channel has received everything (independence)
 		rig.waitCounts(len(expEv), 20*time.Second)
 		time.Sleep(2 * time.Millisecond)
-		close(rig.release)
 		for _, name := range rig.order {
+			if name == "bad-block" {
+				continue
+			}
 			got := rig.recs[name].snapshot()
 			if d := diffEvents(expEv, got); d != "" {
+				r.miss(k, "events", fmt.Sprintf("channel %s (while another channel is blocked): %d events %v", name, len(expEv), expEv), d)
+			}
+		}
+		// 2. the blocked channel is released: it, too, ends with every event exactly once
+		close(rig.release)
+		rig.waitAll(len(expEv), 20*time.Second)
+		time.Sleep(2 * time.Millisecond)
+		for _, name := range rig.order {
+			got := rig.recs[name].snapshot()
+			if d := diffEvents(expEv, got); d != "" && (name == "bad-block" || len(got) > len(expEv)) {
 				r.miss(k, "events", fmt.Sprintf("channel %s: %d events %v", name, len(expEv), expEv), d)
 			}
 		}
@@ -175,7 +192,29 @@ func (r *Replayer) Run(idx int, b *Behaviour) error {
 		switch st.Op {
 		case "add", "resubmit":
 			r.Fault.Arm(st.Fault)
-			h, err, crashed := SafeAdd(r.S.Svc.Chains, c.Source(st.ID))
+			var h *domains.BlockHeader
+			var err error
+			var crashed string
+			if rig == nil {
+				h, err, crashed = SafeAdd(r.S.Svc.Chains, c.Source(st.ID))
+			} else {
+				// C11 "ingestion never waits": with a channel that blocks for ever attached, Add still returns
+				type addRes struct {
+					h       *domains.BlockHeader
+					err     error
+					crashed string
+				}
+				ch := make(chan addRes, 1)
+				src := c.Source(st.ID)
+				go func() { a, b2, c2 := SafeAdd(r.S.Svc.Chains, src); ch <- addRes{a, b2, c2} }()
+				select {
+				case x := <-ch:
+					h, err, crashed = x.h, x.err, x.crashed
+				case <-time.After(60 * time.Second):
+					r.miss(k, "ingestion-blocked", fmt.Sprintf("Add of header %d returns while a notification channel is blocked (%d headers stored so far)", st.ID, k), "no answer within 60 s")
+					return errWedged
+				}
+			}
 			r.Fault.Arm("")
 			got := addResult(h, err)
 			if crashed == "killed" {
